@@ -294,6 +294,17 @@ channel_write_map(struct channel* self, size_t nbytes)
             goto Finalize;
         end = beg + nbytes;
         if (beg != self->head) {
+            // Readers that have consumed everything follow the writer into
+            // the new lap. Left behind at the old head they would look like
+            // the slowest reader and hold back later writes although they have
+            // nothing left to read.
+            for (uint32_t i = 0; i < self->holds.n; ++i) {
+                if (self->holds.pos[i] == self->head &&
+                    self->holds.cycles[i] == self->cycle) {
+                    self->holds.pos[i] = 0;
+                    self->holds.cycles[i] = self->cycle + 1;
+                }
+            }
             self->high = self->head;
             self->head = beg;
             ++self->cycle;
